@@ -1,0 +1,48 @@
+//go:build verif
+
+// Contracts for package replicator, read by /verif/govc. Comments only.
+package replicator
+
+// ---- ReplicationInfo (interface level, ghost state keyed by the interface value) ----
+
+//@ ghost field statusMax(Iface) Int
+//@ ghost field statusProgress(Iface) Int
+
+//@ extern (berty.tech/go-orbit-db/stores/replicator.ReplicationInfo).GetMax as (r).GetMax() (n)
+//@   ensures n == statusMax(r)
+//@   modifies nothing
+//@ extern (berty.tech/go-orbit-db/stores/replicator.ReplicationInfo).GetProgress as (r).GetProgress() (n)
+//@   ensures n == statusProgress(r)
+//@   modifies nothing
+//@ extern (berty.tech/go-orbit-db/stores/replicator.ReplicationInfo).SetMax as (r).SetMax(i)
+//@   modifies statusMax(r)
+//@   ensures statusMax(r) == i
+//@ extern (berty.tech/go-orbit-db/stores/replicator.ReplicationInfo).SetProgress as (r).SetProgress(i)
+//@   modifies statusProgress(r)
+//@   ensures statusProgress(r) == i
+//@ extern (berty.tech/go-orbit-db/stores/replicator.ReplicationInfo).Reset as (r).Reset()
+//@   modifies statusMax(r), statusProgress(r)
+//@   ensures statusMax(r) == 0 && statusProgress(r) == 0
+
+// ---- the concrete implementation meets the same contracts on its fields ----
+
+//@ func (*replicationInfo).GetMax
+//@   props C19
+//@   ensures result == r.max
+//@   modifies nothing
+//@ func (*replicationInfo).GetProgress
+//@   props C19
+//@   ensures result == r.progress
+//@   modifies nothing
+//@ func (*replicationInfo).SetMax
+//@   props C19
+//@   ensures r.max == i
+//@   modifies r.max
+//@ func (*replicationInfo).SetProgress
+//@   props C19
+//@   ensures r.progress == i
+//@   modifies r.progress
+//@ func (*replicationInfo).Reset
+//@   props C19
+//@   ensures r.max == 0 && r.progress == 0
+//@   modifies r.max, r.progress
